@@ -20,6 +20,7 @@
 package main
 
 import (
+	"bytes"
 	"encoding/binary"
 	"encoding/json"
 	"fmt"
@@ -30,8 +31,10 @@ import (
 	"path/filepath"
 	"regexp"
 	"sort"
+	"strconv"
 	"strings"
 	"sync"
+	"sync/atomic"
 	"testing"
 	"testing/synctest"
 	"time"
@@ -283,6 +286,103 @@ func (e *engine) evalRace(c Case) error {
 	}
 	if !ok {
 		rep.Diverge(common.Divergence{Engine: "race", Case: c, Impl: obs, Model: "exactly one accept, k-1 repeated, then repeated"})
+	}
+	rep.TracesValidated++
+	return nil
+}
+
+// ---------- poolrace engine: k callers of SaltPool.Add on one salt, in a child process ----------
+
+type poolRaceResult struct {
+	Rounds  int    `json:"rounds"`
+	Doubles int    `json:"doubles"` // rounds in which more than one Add answered true
+	Nones   int    `json:"nones"`   // rounds in which no Add answered true
+	First   string `json:"first,omitempty"`
+}
+
+// poolRaceChild: k persistent workers walk through the same sequence of fresh salts (one per round) and call
+// Add for each, every worker with its own clock reading inside one second; they are re-aligned by a blocking
+// barrier every 32 rounds (no spinning: the machine may be oversubscribed). Exactly one Add per round may answer true.
+func poolRaceChild(k, rounds int, seed uint64) poolRaceResult {
+	const batch = 32
+	var pool ss2022.SaltPool
+	results := make([]atomic.Int64, rounds)
+	nb := (rounds + batch - 1) / batch
+	start := make([]chan struct{}, nb)
+	fin := make([]sync.WaitGroup, nb)
+	for b := range start {
+		start[b] = make(chan struct{})
+		fin[b].Add(k)
+	}
+	base := int64(bubbleStart)
+	for w := 0; w < k; w++ {
+		go func() {
+			for b := 0; b < nb; b++ {
+				<-start[b]
+				for r := b * batch; r < (b+1)*batch && r < rounds; r++ {
+					now := base + int64(r)*1000 + int64((uint64(w)*2654435761+seed)%1000)
+					if pool.Add(time.Unix(0, now), saltOfID(r+1)) {
+						results[r].Add(1)
+					}
+				}
+				fin[b].Done()
+			}
+		}()
+	}
+	for b := 0; b < nb; b++ {
+		close(start[b])
+		fin[b].Wait()
+	}
+	res := poolRaceResult{Rounds: rounds}
+	for r := 0; r < rounds; r++ {
+		switch n := results[r].Load(); {
+		case n > 1:
+			res.Doubles++
+			if res.First == "" {
+				res.First = fmt.Sprintf("round %d: %d of %d concurrent Add calls for one salt answered true", r, n, k)
+			}
+		case n == 0:
+			res.Nones++
+		}
+	}
+	return res
+}
+
+func (e *engine) evalPoolRace(c Case) error {
+	rep := e.rep
+	cmd := exec.Command(os.Args[0])
+	cmd.Env = append(os.Environ(), "C03_CHILD=poolrace", fmt.Sprintf("C03_K=%d", c.K), fmt.Sprintf("C03_ROUNDS=%d", c.N), fmt.Sprintf("C03_SEED=%d", c.Cfg.KeySeed))
+	var stdout, stderr bytes.Buffer
+	cmd.Stdout, cmd.Stderr = &stdout, &stderr
+	err := cmd.Run()
+	rep.Case(sigOf(c), true)
+	rep.Count(fmt.Sprintf("poolrace:k=%d", c.K))
+	var res poolRaceResult
+	if err != nil {
+		msg := lastBytes(stderr.Bytes(), 4000)
+		first := msg
+		if i := strings.Index(stderr.String(), "fatal error:"); i >= 0 {
+			first = stderr.String()[i:]
+			if j := strings.IndexByte(first, '\n'); j > 0 {
+				first = first[:j]
+			}
+		}
+		rep.Fail(common.OracleFailure{Engine: "poolrace", Key: "fatal-error:concurrent-saltpool-add", Case: c,
+			Detail: fmt.Sprintf("%d goroutines calling SaltPool.Add for the same salt (%d rounds) killed the process: %v: %s", c.K, c.N, err, first)})
+		rep.Diverge(common.Divergence{Engine: "poolrace", Case: c, Impl: first, Model: "total"})
+		return nil
+	}
+	if jerr := json.Unmarshal(stdout.Bytes(), &res); jerr != nil {
+		return fmt.Errorf("poolrace child: %v: %q", jerr, lastBytes(stdout.Bytes(), 200))
+	}
+	if res.Doubles > 0 {
+		rep.Fail(common.OracleFailure{Engine: "poolrace", Key: "double-accept:concurrent-pool", Case: c, Detail: fmt.Sprintf("%d of %d rounds: %s", res.Doubles, res.Rounds, res.First)})
+	}
+	if res.Nones > 0 {
+		rep.Fail(common.OracleFailure{Engine: "poolrace", Key: "genuine-refused:concurrent-pool", Case: c, Detail: fmt.Sprintf("%d of %d rounds: no Add of a fresh salt answered true", res.Nones, res.Rounds)})
+	}
+	if res.Doubles > 0 || res.Nones > 0 {
+		rep.Diverge(common.Divergence{Engine: "poolrace", Case: c, Impl: res, Model: "exactly one true per round (add_is_atomic)"})
 	}
 	rep.TracesValidated++
 	return nil
@@ -674,6 +774,8 @@ func (e *engine) eval(c Case) error {
 		return e.evalPool(c)
 	case "flood":
 		return e.evalFlood(c)
+	case "poolrace":
+		return e.evalPoolRace(c)
 	case "ts":
 		return e.evalTs(c)
 	}
@@ -731,6 +833,13 @@ func (e *engine) all() error {
 	n = o.Budget(300, 3000)
 	for i := 0; i < n; i++ {
 		if err := e.eval(genRaceCase(r.Fork(uint64(1<<32 + i)))); err != nil {
+			return err
+		}
+	}
+	for i, kk := range []int{2, 4, 16} {
+		pc := Case{Engine: "poolrace", Cfg: Cfg{KeySeed: r.U64()}, K: kk, N: o.Budget(20000, 200000)}
+		_ = i
+		if err := e.eval(pc); err != nil {
 			return err
 		}
 	}
@@ -830,14 +939,22 @@ func lastBytes(b []byte, n int) string {
 }
 
 func main() {
+	if os.Getenv("C03_CHILD") == "poolrace" {
+		k, _ := strconv.Atoi(os.Getenv("C03_K"))
+		rounds, _ := strconv.Atoi(os.Getenv("C03_ROUNDS"))
+		seed, _ := strconv.ParseUint(os.Getenv("C03_SEED"), 10, 64)
+		b, _ := json.Marshal(poolRaceChild(k, rounds, seed))
+		os.Stdout.Write(b)
+		return
+	}
 	testing.Init()
 	o := common.ParseFlags()
 	rep := common.NewReport("C03", o)
-	rep.Engines = []string{"replay", "race", "pool", "ts", "flood"}
+	rep.Engines = []string{"replay", "race", "pool", "ts", "flood", "poolrace"}
 	rep.Rule = "replay: histories (<= ~45 ops) of clock advances and presentations of crafted/real/mutated SS2022 TCP requests to a real StreamServer on a synctest fake clock; " +
 		"templates: end-of-validity replays (skew -31..+31 s, instants within 0/1/2 ns and 1 s of the last valid instant), retention edges (t1 + 59/60/61/62 s +-2 ns after a pruning Add), forged-copies-first, random walks over a boundary step alphabet; " +
 		"non-trivial = at least one accept and at least one re-presentation of an accepted request; distinct by (config, op list). " +
-		"race: k in {2,3,4,8,16} concurrent copies + 0..6 unrelated concurrent requests. pool: <= 40 SaltPool ops with non-monotone instants, plus floods: Add(r), N distinct fresh salts (N in 2^10, 2^16-1, 2^16, 2^16+1, 2^17, 3*10^5) inside r's validity span, Add(r) again (model compared up to 2048 Adds, larger floods oracle + theorem). flood: the same through HandleStream with 2048 (quick) / 70000 (thorough, search) real handshakes on the fake clock. ts: 64 (word, clock) pairs per case over 64-bit boundary alphabets"
+		"race: k in {2,3,4,8,16} concurrent copies + 0..6 unrelated concurrent requests. pool: <= 40 SaltPool ops with non-monotone instants, plus floods: Add(r), N distinct fresh salts (N in 2^10, 2^16-1, 2^16, 2^16+1, 2^17, 3*10^5) inside r's validity span, Add(r) again (model compared up to 2048 Adds, larger floods oracle + theorem). poolrace (child process): k in {2,4,16} goroutines call SaltPool.Add for the same fresh salt behind a spin barrier, 20000 / 200000 rounds each. flood: the same through HandleStream with 2048 (quick) / 70000 (thorough, search) real handshakes on the fake clock. ts: 64 (word, clock) pairs per case over 64-bit boundary alphabets"
 	code := 0
 	testing.Main(func(pat, str string) (bool, error) { return true, nil }, []testing.InternalTest{{Name: "corr_c03", F: func(t *testing.T) {
 		e := &engine{o: o, rep: rep, t: t}
